@@ -205,6 +205,8 @@ class PlanarCurve(BaseCurve):
         else:
             dsumpt = dapt + dbpt
             denomin = dsumpt.inner(dsumpt)
+            if denomin == 0:
+                raise ValueError("Union is not a bezier curve!")
             node = dapt.inner(dsumpt) / denomin
         knotvectora = pynurbs.GeneratorKnotVector.bezier(self.degree, Fraction)
         knotvectora.scale(node)
